@@ -25,7 +25,7 @@ STUBS = [
 ]
 OUTSIDE = ['more than 3 components', 'middleware that mutates the stacks at run time', 'more than one before and one after hook per responder '
            'in the quick tier']
-BUDGET = {'quick': 300, 'thorough': 2400}
+BUDGET = {'quick': 300, 'thorough': 900}
 
 
 class AppErr(Exception):
